@@ -17,9 +17,14 @@ def gen_cases_for(seed_, n):
             jc = gen.keys_case(rng)
         else:
             jc = gen.json_case(rng)
+        sp = pc.special_case(rng, i)
+        if sp is not None:
+            jc = sp
         opts = gen.options(rng, jc["samples"], allow_dict_opts=(i % 2 == 0))
         if i % 2:
             opts["merge"] = rng.choice([[["exact"]], opts["merge"]])
+        if sp is not None:
+            pc.adjust_opts(jc, opts)
         cases.append({"i": i, "profile": jc["profile"], "models": [["Root", jc["samples"]]] + pc.maybe_second_root(rng, jc["samples"], jc["profile"], p=0.2),
                       "opts": opts})
     return cases
@@ -55,8 +60,8 @@ def run_case(case):
         loaded = a.load()
         try:
             a.c03()
-        except SyntaxError:
-            pass
+        except (SyntaxError, ValueError):
+            pass  # text that does not parse / is not encodable source: reported by load()
         if not opts["flat"] and not tree:
             counters["outside_claim_nested_non_tree"] = 1
             return {"status": "outside", "why": "nested layout on a non-tree model graph", "witnesses": [], "counters": counters}
